@@ -7,6 +7,15 @@ IR (JSON): ["skip"] | ["bind", x, src] | ["write", x] | ["ret", x] | ["seq", [s.
 A parameter and everything reachable from it (elements, attributes, dict values, views) is ONE
 region.  The translation over-approximates: whatever it cannot classify becomes `unknown` plus a
 write to every argument.  Calls to other pewlib functions/methods are inlined.
+
+Besides the regions, a value may carry a TAG, a flow-sensitive fact about its library type (kept with the
+`arr` facts, intersected at joins): ElementTree objects, executors / futures, instances of a pewlib
+class (from constructors and trusted annotations).  Tags only select which method table applies to a
+receiver (ElementTree's pure accessors, `submit`, the class hierarchy's own methods); an untagged
+receiver is dispatched by name as before, and a method outside every table stays an unknown call.
+Function values: lambdas and functions handed to sorted/min/max/map/filter/list.sort are applied to the
+items in a loop; names that can only hold pewlib functions are called as a branch over them; any
+other function-valued parameter or variable is an unknown call.
 """
 from __future__ import annotations
 
@@ -959,6 +968,8 @@ class Scope:
             base = self.expr(e.value, out, stack)
             if e.attr in ("shape", "ndim", "size", "dtype", "names", "itemsize", "nbytes", "name", "suffix", "stem", "parent"):
                 return FRESH
+            if base.tag in ("xml", "xmlc") and e.attr in ("tag", "text", "tail"):
+                return FRESH  # str (or None), like findtext
             val = base.loaded()
             if isinstance(e.value, ast.Name) and len(base.own) == 1:
                 fp = self.tr.fields.get((next(iter(base.own)), e.attr))
@@ -1160,7 +1171,7 @@ class Scope:
         for a in args + [v for k, v in kwargs.items() if k not in no_flow]:
             union = union | a
         if hof_res is not None:
-            union = union | hof_res  # map(f, xs): what f returns becomes an element of the result
+            union = hof_res  # map(f, xs): the elements of the result are what f returns, nothing else
         f = e.func
         if "out" in kwargs:  # `out=` style keyword: the named array is written
             self.write(out, kwargs["out"])
